@@ -164,8 +164,13 @@ def arg_value(a):
 
 # --------------------------------------------------------------------------- configuration
 
-def service_doc(s):
+def service_doc(s, explicit=None):
+    """explicit: a Random; when given, empty collections are sometimes written out ([] / {} / ~) instead of omitted"""
     d = {}
+    if explicit is not None:
+        for key, yk, empty in (("args", "arguments", []), ("calls", "calls", []), ("tags", "tags", []), ("fields", "fields", {})):
+            if not s[key] and explicit.random() < 0.5:
+                d[yk] = explicit.choice([empty, None])
     if s["todo"] != UNSET:
         d["todo"] = s["todo"] == "true"
     for key, yk in (("getter", "getter"), ("type", "type"), ("value", "value"), ("ctor", "constructor")):
@@ -198,7 +203,7 @@ def service_doc(s):
     return d
 
 
-def cfg_doc(cfg):
+def cfg_doc(cfg, explicit=None):
     """abstract cfg (or partial cfg = one file) -> nested python structure mirroring the YAML."""
     doc = {}
     if cfg.get("version", UNSET) != UNSET:
@@ -222,7 +227,12 @@ def cfg_doc(cfg):
         doc["parameters"] = {n: arg_value(a) for n, a in params.items()}
     services = fix_map(cfg.get("services", {}))
     if services:
-        doc["services"] = {n: service_doc(s) for n, s in services.items()}
+        doc["services"] = {n: service_doc(s, explicit) for n, s in services.items()}
+    if explicit is not None:
+        if not cfg.get("decorators") and explicit.random() < 0.5:
+            doc["decorators"] = explicit.choice([[], None])
+        if not params and explicit.random() < 0.3:
+            doc["parameters"] = explicit.choice([{}, None])
     if cfg.get("decorators"):
         doc["decorators"] = [{"tag": d["tag"], "decorator": d["fn"],
                               **({"arguments": [arg_value(a) for a in d["args"]]} if d["args"] else {})}
@@ -230,8 +240,8 @@ def cfg_doc(cfg):
     return doc
 
 
-def to_yaml(cfg, rng=None):
-    doc = cfg_doc(cfg)
+def to_yaml(cfg, rng=None, explicit=None):
+    doc = cfg_doc(cfg, explicit)
     if not doc:
         return "{}\n"
     return emit(doc, rng) + "\n"
